@@ -8,9 +8,20 @@ See `harness/src/c16.rs` for the line format.
 namespace Driver.C16
 open Proto _root_.C16 Path
 
+/-! ## keys as raw bytes
+
+Unix paths are byte strings: separators, `.` and `..` are decided on bytes, equality is byte
+equality.  A key travels as the hex of its bytes and is decoded to one `Char` per byte (code 0–255), so
+that the path model applies unchanged to names that are not UTF-8. -/
+
+def unhexKey (s : String) : Option (List Char) :=
+  (unhex s).map fun bs => bs.map fun b => Char.ofNat b.toNat
+
+def hexOfKey (k : List Char) : String := hexOfBytes (k.map fun c => UInt8.ofNat c.toNat)
+
 /-! ## concrete disk of the driver: the source store directory as a flat tree -/
 
-inductive TNode | file (b : Bytes) | dir | link (b : Bytes)
+inductive TNode | file (b : Bytes) | dir | link (b : Bytes) | dlink
   deriving DecidableEq
 
 abbrev Tree := List (List (List Char) × TNode)
@@ -43,7 +54,7 @@ def properPrefixesOf (p : List (List Char)) : List (List (List Char)) :=
 /-- the listing `read_dir` would produce: explicit entries plus the implied directories -/
 def toListing (t : Tree) : Listing :=
   let explicit : Listing := t.map fun e => (e.1, match e.2 with
-    | .file _ => NodeKind.file | .dir => NodeKind.dir | .link _ => NodeKind.symlink)
+    | .file _ => NodeKind.file | .dir => NodeKind.dir | .link _ => NodeKind.symlink | .dlink => NodeKind.symlink)
   let implied := (t.flatMap fun e => properPrefixesOf e.1).eraseDups
   explicit ++ (implied.filter fun d => !(explicit.any fun e => e.1 == d)).map fun d => (d, NodeKind.dir)
 
@@ -51,18 +62,18 @@ def toListing (t : Tree) : Listing :=
 
 def sortStr (l : List String) : List String := l.mergeSort fun a b => !(b < a)
 
-def keysTok (ks : List Key) : String := ",".intercalate (sortStr (ks.map hexOfStr))
+def keysTok (ks : List Key) : String := ",".intercalate (sortStr (ks.map hexOfKey))
 
 def resTok : Except Err Bytes → String
   | .ok b => "o" ++ hexOfBytes b
   | .error _ => "e"
 
 def iterTok (l : List (Key × Except Err Bytes)) : String :=
-  ",".intercalate (sortStr (l.map fun e => hexOfStr e.1 ++ "=" ++ resTok e.2))
+  ",".intercalate (sortStr (l.map fun e => hexOfKey e.1 ++ "=" ++ resTok e.2))
 
 def sortCsv (s : String) : String := ",".intercalate (sortStr ((s.splitOn ",").filter (· ≠ "")))
 
-def hexLoc (l : List (List Char)) : String := hexOfStr (("/".intercalate (l.map String.ofList)).toList)
+def hexLoc (l : List (List Char)) : String := hexOfKey (("/".intercalate (l.map String.ofList)).toList)
 
 def nodeTok (n : Spec.Node) : String :=
   hexLoc n.1 ++ "=" ++ String.singleton n.2.1 ++ (if n.2.1 == 'd' then "" else hexOfBytes n.2.2)
@@ -72,7 +83,7 @@ def treeTok (t : List Spec.Node) : String := ",".intercalate (sortStr (t.map nod
 def parseNode (s : String) : Option Spec.Node :=
   match s.splitOn "=" with
   | [p, v] =>
-    match unhexStr p, v.toList with
+    match unhexKey p, v.toList with
     | some path, k :: rest =>
       let bytes := if rest.isEmpty then some [] else unhex (String.ofList rest)
       bytes.map fun b => (splitSlash path, k, b)
@@ -82,7 +93,7 @@ def parseNode (s : String) : Option Spec.Node :=
 def parseEntry (s : String) : Option Spec.Entry :=
   match s.splitOn "=" with
   | [k, v] =>
-    match unhexStr k, v.toList with
+    match unhexKey k, v.toList with
     | some key, 'o' :: rest => (unhex (String.ofList rest)).map fun b => (key, some b)
     | some key, ['e'] => some (key, none)
     | _, _ => none
@@ -138,7 +149,7 @@ def provenance (toks : List String) : List (List Char × List UInt8) :=
     match t.splitOn ":" with
     | [c, k, b] =>
       if c = "I" || c = "W" || c = "L" then
-        match unhexStr k, unhex b with
+        match unhexKey k, unhex b with
         | some key, some bytes => some (key, bytes)
         | _, _ => none
       else none
@@ -154,14 +165,18 @@ def specProvenance (prov : List (List Char × List UInt8)) (k : Key) (res : Stri
     | none => []
   | _ => []
 
-def stepTok (prov : List (List Char × List UInt8)) (st : St) (tok : String) (obs : String) : St :=
+def stepTok (prov : List (List Char × List UInt8)) (st : St) (tok : String) (obs0 : String) : St :=
+  -- `!` = the same step on the original font (the history runs on a clone) gave another observation
+  let differs := obs0.startsWith "!"
+  let obs := if differs then (obs0.drop 1).toString else obs0
+  let st := if differs then { st with spec := st.spec ++ ["clone-behaves-differently"] } else st
   let push (st : St) (s : String) : St := { st with out := s :: st.out }
   if st.dead then push st "x" else
   let implParts := obs.splitOn "#"
   let implRes := implParts.head!
   let implKeys : Option (List Key) :=
     match implParts with
-    | [_, ks] => (csv ks).mapM unhexStr
+    | [_, ks] => (csv ks).mapM unhexKey
     | _ => none
   -- key clauses of the specification on the implementation's key set after this step
   let st := match implKeys with
@@ -183,12 +198,13 @@ def stepTok (prov : List (List Char × List UInt8)) (st : St) (tok : String) (ob
                        tags := "loaded" :: (if hidden then ["loaded-hidden-name"] else []) ++ st.tags }
           ("ok#" ++ keysTok (keys s))
       | .error _ => push { st with dead := true, tags := "load-refused" :: st.tags } "err"
-    else if parts.head! = "W" || parts.head! = "D" || parts.head! = "M" || parts.head! = "L" then
+    else if parts.head! = "W" || parts.head! = "D" || parts.head! = "M" || parts.head! = "L" || parts.head! = "X" then
       if st.frozen || (st.store.isSome && !st.hasTree) then push st "x" else
-      match unhexStr (parts.getD 1 ""), (if parts.length > 2 then unhex (parts.getD 2 "") else some []) with
+      match unhexKey (parts.getD 1 ""), (if parts.length > 2 && parts.head! != "X" then unhex (parts.getD 2 "") else some []) with
       | some p, some b =>
         let node := match parts.head! with
-          | "W" => some (TNode.file b) | "M" => some TNode.dir | "L" => some (TNode.link b) | _ => none
+          | "W" => some (TNode.file b) | "M" => some TNode.dir | "L" => some (TNode.link b)
+          | "X" => some TNode.dlink | _ => none
         push { st with tree := envPut st.tree (namesOf p) node,
                        tags := (if st.store.isSome then ["env"] else []) ++ st.tags } "-"
       | _, _ => push st "bad-token"
@@ -199,7 +215,7 @@ def stepTok (prov : List (List Char × List UInt8)) (st : St) (tok : String) (ob
         let disk : Disk := readTree st.tree
         match parts with
         | ["I", k, b] =>
-          match unhexStr k, unhex b with
+          match unhexKey k, unhex b with
           | some key, some bytes =>
             let (s', r) := insert s key bytes
             let st := { st with store := some s' }
@@ -208,11 +224,11 @@ def stepTok (prov : List (List Char × List UInt8)) (st : St) (tok : String) (ob
              | .error e => withKeys { st with tags := ("ins-" ++ reprStr e) :: st.tags } "e")
           | _, _ => push st "bad-token"
         | ["R", k] =>
-          match unhexStr k with
+          match unhexKey k with
           | some key => withKeys { st with store := some (remove s key) } "-"
           | none => push st "bad-token"
         | ["G", k] =>
-          match unhexStr k with
+          match unhexKey k with
           | some key =>
             let lazy := match find? s.items key with | some (_, .notLoaded) => true | _ => false
             let (s', r) := get s disk key
@@ -221,10 +237,12 @@ def stepTok (prov : List (List Char × List UInt8)) (st : St) (tok : String) (ob
                                tags := (if lazy then ["lazy-get", "lazy-" ++ (res.take 1).toString] else []) ++ st.tags } res
           | none => push st "bad-token"
         | ["H", k] =>
-          match unhexStr k with
+          match unhexKey k with
           | some key => withKeys st (if hasKey s.items (parse key) then "1" else "0")
           | none => push st "bad-token"
         | ["C"] => withKeys { st with store := some (clear s) } "-"
+        -- a clone is the same store value
+        | ["CL"] => withKeys { st with tags := "clone" :: st.tags } "-"
         | ["T"] =>
           let (s', l) := iter s disk
           withKeys { st with store := some s' } ("t" ++ iterTok l)
@@ -274,14 +292,14 @@ def stepTok (prov : List (List Char × List UInt8)) (st : St) (tok : String) (ob
         | _, _ => st'
       else st'
     | ["G", k], some _ =>
-      match unhexStr k with
+      match unhexKey k with
       | some key => { st' with spec := st'.spec ++ specBytes st.kind implRes ++ specProvenance prov key implRes }
       | none => st'
     | ["T"], some _ =>
       let es := csv ((implRes.drop 1).toString)
       { st' with spec := st'.spec ++ es.flatMap fun (e : String) =>
           match e.splitOn "=" with
-          | [k, v] => (match unhexStr k with
+          | [k, v] => (match unhexKey k with
             | some key => specBytes st.kind v ++ specProvenance prov key v
             | none => [])
           | _ => [] }
@@ -330,7 +348,8 @@ def run (inp obs : List String) : Verdict :=
     let prov := provenance toks
     let st := (toks.zip obs).foldl (fun st p => stepTok prov st p.1 p.2) ({ kind := kind } : St)
     let model := st.out.reverse
-    let agree := (model.zip obs).all fun p => tokAgree p.1 p.2
+    let agree := (model.zip obs).all fun p =>
+      tokAgree p.1 (if p.2.startsWith "!" then (p.2.drop 1).toString else p.2)
     let nt := toks.any fun t => t.startsWith "I:" || t.startsWith "G:" || t = "T" || t = "S" || t = "SA" || t = "SE"
     let tags := (st.tags ++ [if kind == .data then "data" else "image",
                              "len" ++ toString (min (toks.length / 5 * 5) 30)] ++ (if nt then ["nt"] else [])).eraseDups
